@@ -503,21 +503,6 @@ fn dump_bs(out: &mut Vec<u64>, m: &bsv::SchemaMessage) {
     out.push(m.pending_bytes as u32 as u64);
 }
 
-/// the identify address rule of `on_outbound_substream`, transcribed (the original is inline in
-/// an async block): parses, not empty, a trailing /p2p must name `expect`
-fn addr_kept(addr: &[u8], expect: &PeerId) -> Option<Vec<u8>> {
-    let address = Multiaddr::try_from(addr.to_vec()).ok()?;
-    if address.is_empty() {
-        return None;
-    }
-    if let Some(Protocol::P2p(peer_id)) = address.iter().last() {
-        if peer_id != (*expect).into() {
-            return None;
-        }
-    }
-    Some(address.to_vec())
-}
-
 fn dump_prefix(v: u64, c: u64, t: u64, l: u8) -> Vec<u64> {
     let mut o = vec![1, v];
     el(&mut o, &uvi(c));
